@@ -200,7 +200,7 @@ ExecField(C, tn, f, rp, vp) ==
            rp2 == Join(rp, f.alias)
            rh  == IF rp = "" THEN IntHow(C, rp2, "#r") ELSE "pass"
            fh  == IntHow(C, rp2, "#f")
-           qh  == QHow(C, rp2, IF C.dord = "rev" THEN f.qdirs ELSE Reverse(f.qdirs))
+           qh  == QHow(C, rp2, IF C.dord = "rev" THEN Reverse(f.qdirs) ELSE f.qdirs)
            bad == IF rh = "panic" THEN "panic" ELSE IF fh = "err" THEN "int" ELSE IF fh = "panic" THEN "panic"
                   ELSE IF qh = "err" THEN "dir" ELSE IF qh = "panic" THEN "panic" ELSE ""
        IN  IF f.afault # ""
